@@ -147,7 +147,7 @@ def admissible(fmt, m):
     if fmt == "incidence":
         return True
     import re
-    if any(not re.fullmatch(r"-?\w+", str(x)) for x in nodes + edges):
+    if any(not re.fullmatch(r"-?[\w\ufeff]+", str(x)) for x in nodes + edges):
         return False  # a label containing a delimiter / comment / whitespace character
     return True
 
